@@ -486,11 +486,17 @@ void scan_deps(const std::string& orig_portname, std::string cur_portname,
     };
 
     // this port and all parent ports can be enabled by another port, so check them all
+    bool is_leaf_level = true;
     for(std::string::size_type last_slash;
         cur_portname.size() && (last_slash = cur_portname.find_last_of('/')) != std::string::npos;
           cur_portname.resize(last_slash))
     {
-        const Port* port = ports.apropos(cur_portname.c_str());
+        // parent levels are directories: ask for "name/", otherwise a sibling
+        // whose name merely starts with the directory's name may be found
+        const Port* port = ports.apropos(is_leaf_level
+                                         ? cur_portname.c_str()
+                                         : (cur_portname + '/').c_str());
+        is_leaf_level = false;
         if(port)
         {
             const char* dep_types[3] = { "enabled by", "depends", "default depends" };
